@@ -301,7 +301,14 @@ fn run_local(ctx: &mut Ctx, content: Arc<Vec<u8>>, ranges: Vec<(u64, usize)>, si
     let read_fault = if eof_at.is_none() && gen::chance(1, 6) {
         let kind = *gen::t(|t| t.pick(&[std::io::ErrorKind::Interrupted, std::io::ErrorKind::Interrupted, std::io::ErrorKind::WouldBlock, std::io::ErrorKind::Other]));
         let k = gen::draw(40) as u64;
-        file.with(|g| g.read_fault = Some((k, kind)));
+        // (a quarter: not a read but a seek fails, when it is started or when it completes)
+        if gen::chance(1, 4) {
+            let k = gen::draw(12) as u64;
+            let at_complete = gen::chance(1, 2);
+            file.with(|g| g.seek_fault = Some((k, if kind == std::io::ErrorKind::WouldBlock { std::io::ErrorKind::Other } else { kind }, at_complete)));
+        } else {
+            file.with(|g| g.read_fault = Some((k, kind)));
+        }
         Some((k, kind))
     } else {
         None
@@ -384,7 +391,7 @@ fn run_local(ctx: &mut Ctx, content: Arc<Vec<u8>>, ranges: Vec<(u64, usize)>, si
     if read_fault.is_some() {
         // relaxed, narrowly: every delivered item is the exact bytes of its range, in order; an
         // error may end the stream if the fault fired; nothing else
-        let fired = file_probe.with(|g| g.read_fault.is_none());
+        let fired = file_probe.with(|g| g.read_fault.is_none() && g.seek_fault.is_none());
         let mut i = 0usize;
         for it in &items {
             match it {
